@@ -109,6 +109,10 @@ inductive Stop where
   | loopFuel     -- the model's own iteration budget ran out (only possible when `maxSimIterations = 0`)
   deriving Repr, DecidableEq, Inhabited
 
+def Stop.isFault : Stop → Bool
+  | .fault _ => true
+  | _ => false
+
 /-- result of the main loop: the stream of iterations, the stop reason and the final state -/
 structure LoopOut (σ : Type) where
   stream : List StepRec
@@ -160,16 +164,18 @@ variable {σ : Type} (ρ : Oracle σ)
 def loopFuel (args : Args) (budget : Nat) : Nat :=
   if args.maxSimIterations > 0 then args.maxSimIterations else budget
 
-/-- `sim_advanced(machines_client, machines_server, sq, args)`.  A fault (panic) returns no
-    trace, as unwinding does. -/
+/-- after the loop: a fault (panic) returns no trace, as unwinding does; otherwise the recorded
+    events are sorted and returned -/
+def finish (args : Args) (o : LoopOut σ) : SimOut σ :=
+  match o.stop with
+  | .fault f => ⟨[], o.stream, .fault f, none⟩
+  | _ => ⟨record args o.stream, o.stream, o.stop, o.final⟩
+
+/-- `sim_advanced(machines_client, machines_server, sq, args)` -/
 def simAdvanced (budget : Nat) (mc ms : List Machine) (sq : SimQueue) (args : Args) (orc : σ) : SimOut σ :=
   match initState ρ mc ms sq args orc with
   | .error f => ⟨[], [], .fault f, none⟩
-  | .ok st =>
-    let o := loop ρ args (loopFuel args budget) st 0 0
-    match o.stop with
-    | .fault f => ⟨[], o.stream, .fault f, none⟩
-    | _ => ⟨record args o.stream, o.stream, o.stop, o.final⟩
+  | .ok st => finish args (loop ρ args (loopFuel args budget) st 0 0)
 
 /-- `sim(machines_client, machines_server, sq, delay, max_trace_length, only_network_activity)` -/
 def sim (budget : Nat) (mc ms : List Machine) (sq : SimQueue) (delay : Nat) (maxTraceLength : Nat)
